@@ -48,11 +48,20 @@ fn c08_regret_match_positive_ints() {
             tot += r0[i];
         }
     }
-    kani::cover!(r0[0] > 0.0 && r0[1] < 0.0 && r0[2] > 0.0 && r0[0] != r0[2], "two unequal positive and one negative regret");
+    kani::cover!(
+        r0[0] > 0.0 && r0[1] < 0.0 && r0[2] > 0.0 && r0[0] != r0[2],
+        "two unequal positive and one negative regret"
+    );
     for i in 0..3 {
         let want = if r0[i] > 0.0 { r0[i] / tot } else { 0.0 };
-        assert!(near(s[i], want, 1e-12), "C08 match: strategy is not proportional to positive cumulative regret");
-        assert!(r[i].to_bits() == r0[i].to_bits(), "C08 match: regret matching modified the cumulative regrets");
+        assert!(
+            near(s[i], want, 1e-12),
+            "C08 match: strategy is not proportional to positive cumulative regret"
+        );
+        assert!(
+            r[i].to_bits() == r0[i].to_bits(),
+            "C08 match: regret matching modified the cumulative regrets"
+        );
     }
 }
 
@@ -66,10 +75,16 @@ fn c08_regret_match_positive_ints_atomic() {
     let mut s = [0.5, 0.5];
     RegretParams::vanilla().regret_match(&mut r[..], &mut s);
     let tot = (if r0[0] > 0.0 { r0[0] } else { 0.0 }) + (if r0[1] > 0.0 { r0[1] } else { 0.0 });
-    kani::cover!(r0[0] > 0.0 && r0[1] > 0.0 && r0[0] != r0[1], "two unequal positive regrets");
+    kani::cover!(
+        r0[0] > 0.0 && r0[1] > 0.0 && r0[0] != r0[1],
+        "two unequal positive regrets"
+    );
     for i in 0..2 {
         let want = if r0[i] > 0.0 { r0[i] / tot } else { 0.0 };
-        assert!(near(s[i], want, 1e-12), "C08 match: strategy is not proportional to positive cumulative regret (atomic)");
+        assert!(
+            near(s[i], want, 1e-12),
+            "C08 match: strategy is not proportional to positive cumulative regret (atomic)"
+        );
     }
 }
 
@@ -90,16 +105,28 @@ fn c05_regret_match_fallback_full() {
     };
     let mut s = [0.25, 0.25, 0.5];
     RegretParams::new(1.0, 1.0, 1.0, w).regret_match(&mut r, &mut s);
-    kani::cover!(k == 0 && r0[0] == r0[1] && r0[1] == r0[2], "all regrets tie");
+    kani::cover!(
+        k == 0 && r0[0] == r0[1] && r0[1] == r0[2],
+        "all regrets tie"
+    );
     kani::cover!(k == 1 && r0[0] < r0[1], "worst action selected");
-    kani::cover!(r0[0] == 0.0 && r0[0].is_sign_negative(), "negative zero regret");
+    kani::cover!(
+        r0[0] == 0.0 && r0[0].is_sign_negative(),
+        "negative zero regret"
+    );
     let mut ones = 0;
     for i in 0..3 {
-        assert!(s[i] >= 0.0 && s[i] <= 1.0, "C05 profile: regret-matched strategy entry outside [0,1] or NaN");
+        assert!(
+            s[i] >= 0.0 && s[i] <= 1.0,
+            "C05 profile: regret-matched strategy entry outside [0,1] or NaN"
+        );
     }
     if k == 2 {
         for i in 0..3 {
-            assert!(near(s[i], 1.0 / 3.0, 1e-15), "C08 match: weight 0 must give the uniform strategy");
+            assert!(
+                near(s[i], 1.0 / 3.0, 1e-15),
+                "C08 match: weight 0 must give the uniform strategy"
+            );
         }
     } else {
         for i in 0..3 {
@@ -107,16 +134,28 @@ fn c05_regret_match_fallback_full() {
                 ones += 1;
                 for j in 0..3 {
                     if k == 0 {
-                        assert!(r0[i] >= r0[j], "C08 match: weight +inf must pick a best action");
+                        assert!(
+                            r0[i] >= r0[j],
+                            "C08 match: weight +inf must pick a best action"
+                        );
                     } else {
-                        assert!(r0[i] <= r0[j], "C08 match: weight -inf must pick a worst action");
+                        assert!(
+                            r0[i] <= r0[j],
+                            "C08 match: weight -inf must pick a worst action"
+                        );
                     }
                 }
             } else {
-                assert!(s[i] == 0.0, "C08 match: infinite weight must give a pure strategy");
+                assert!(
+                    s[i] == 0.0,
+                    "C08 match: infinite weight must give a pure strategy"
+                );
             }
         }
-        assert!(ones == 1, "C08 match: infinite weight must give a pure strategy");
+        assert!(
+            ones == 1,
+            "C08 match: infinite weight must give a pure strategy"
+        );
     }
 }
 
@@ -148,12 +187,27 @@ fn c05_regret_match_softmax() {
     let w = softmax_weight();
     let mut s = [0.25, 0.75];
     RegretParams::new(1.0, 1.0, 1.0, w).regret_match(&mut r, &mut s);
-    kani::cover!(w == -1000.0 && r0[0] < r0[1], "large negative weight, regrets apart");
-    kani::cover!(w == 1000.0 && r0[0] < r0[1], "large positive weight, regrets apart");
+    kani::cover!(
+        w == -1000.0 && r0[0] < r0[1],
+        "large negative weight, regrets apart"
+    );
+    kani::cover!(
+        w == 1000.0 && r0[0] < r0[1],
+        "large positive weight, regrets apart"
+    );
     kani::cover!(r0[0] == r0[1], "regrets equal");
-    assert!(!s[0].is_nan() && !s[1].is_nan(), "C05 profile: softmax fallback produced NaN");
-    assert!(s[0] >= 0.0 && s[0] <= 1.0 && s[1] >= 0.0 && s[1] <= 1.0, "C05 profile: softmax fallback entry outside [0,1]");
-    assert!(s[0] > 0.0 || s[1] > 0.0, "C05 profile: softmax fallback has no positive entry");
+    assert!(
+        !s[0].is_nan() && !s[1].is_nan(),
+        "C05 profile: softmax fallback produced NaN"
+    );
+    assert!(
+        s[0] >= 0.0 && s[0] <= 1.0 && s[1] >= 0.0 && s[1] <= 1.0,
+        "C05 profile: softmax fallback entry outside [0,1]"
+    );
+    assert!(
+        s[0] > 0.0 || s[1] > 0.0,
+        "C05 profile: softmax fallback has no positive entry"
+    );
 }
 
 #[kani::proof]
@@ -166,17 +220,32 @@ fn c08_regret_match_softmax_order() {
     let w = softmax_weight();
     let mut s = [0.25, 0.75];
     RegretParams::new(1.0, 1.0, 1.0, w).regret_match(&mut r, &mut s);
-    kani::cover!(w < 0.0 && r0[0] < r0[1], "negative weight prefers the worse action");
-    kani::cover!(w > 0.0 && r0[0] < r0[1], "positive weight prefers the better action");
+    kani::cover!(
+        w < 0.0 && r0[0] < r0[1],
+        "negative weight prefers the worse action"
+    );
+    kani::cover!(
+        w > 0.0 && r0[0] < r0[1],
+        "positive weight prefers the better action"
+    );
     kani::assume(!s[0].is_nan() && !s[1].is_nan());
     if w * r0[0] > w * r0[1] {
-        assert!(s[0] >= s[1], "C08 match: softmax is not ordered like weight * regret");
+        assert!(
+            s[0] >= s[1],
+            "C08 match: softmax is not ordered like weight * regret"
+        );
     }
     if w * r0[0] < w * r0[1] {
-        assert!(s[0] <= s[1], "C08 match: softmax is not ordered like weight * regret");
+        assert!(
+            s[0] <= s[1],
+            "C08 match: softmax is not ordered like weight * regret"
+        );
     }
     if r0[0] == r0[1] {
-        assert!(s[0] == s[1], "C08 match: equal regrets must get equal softmax probability");
+        assert!(
+            s[0] == s[1],
+            "C08 match: equal regrets must get equal softmax probability"
+        );
     }
 }
 
@@ -192,12 +261,21 @@ fn c05_regret_match_positive_full2() {
     kani::cover!(r0[0] > 1e299 && r0[1] > 1e299, "huge regrets");
     kani::cover!(r0[0] > 0.0 && r0[1] < 0.0, "one positive");
     for i in 0..2 {
-        assert!(s[i] >= 0.0 && s[i] <= 1.0, "C05 profile: regret-matched strategy entry outside [0,1] or NaN");
+        assert!(
+            s[i] >= 0.0 && s[i] <= 1.0,
+            "C05 profile: regret-matched strategy entry outside [0,1] or NaN"
+        );
         if !(r0[i] > 0.0) {
-            assert!(s[i] == 0.0, "C08 match: non-positive regret must get probability zero");
+            assert!(
+                s[i] == 0.0,
+                "C08 match: non-positive regret must get probability zero"
+            );
         }
     }
-    assert!(s[0] > 0.0 || s[1] > 0.0, "C05 profile: regret-matched strategy has no positive entry");
+    assert!(
+        s[0] > 0.0 || s[1] > 0.0,
+        "C05 profile: regret-matched strategy has no positive entry"
+    );
 }
 
 /// C12 — scaling: multiplying every cumulative regret by 2 leaves the matched strategy unchanged
@@ -217,12 +295,24 @@ fn c12_scale_match_and_bound() {
     p.regret_match(&mut b, &mut sb);
     let ba = p.cum_regret(it as u64, &mut a);
     let bb = p.cum_regret(it as u64, &mut b);
-    kani::cover!(r0[0] > 0.0 && r0[1] > 0.0 && r0[0] != r0[1], "two unequal positive regrets");
-    kani::cover!(r0[0] <= 0.0 && r0[1] <= 0.0 && r0[2] <= 0.0, "no positive regret");
+    kani::cover!(
+        r0[0] > 0.0 && r0[1] > 0.0 && r0[0] != r0[1],
+        "two unequal positive regrets"
+    );
+    kani::cover!(
+        r0[0] <= 0.0 && r0[1] <= 0.0 && r0[2] <= 0.0,
+        "no positive regret"
+    );
     for i in 0..3 {
-        assert!(sa[i].to_bits() == sb[i].to_bits(), "C12 scale: multiplying payoffs (hence regrets) by c must not change the strategy");
+        assert!(
+            sa[i].to_bits() == sb[i].to_bits(),
+            "C12 scale: multiplying payoffs (hence regrets) by c must not change the strategy"
+        );
     }
-    assert!(bb == 2.0 * ba, "C12 scale: multiplying payoffs by c must multiply the bound by c");
+    assert!(
+        bb == 2.0 * ba,
+        "C12 scale: multiplying payoffs by c must multiply the bound by c"
+    );
 }
 
 #[cfg(test)]
